@@ -97,6 +97,28 @@ def apply_mutation(env, label, m):
         env.add_filter("upcase", lambda v, _l=label: "%s<UP:%s>" % (v, _l))
 
 
+def tree_for(tree, recipe):
+    """The canonical tree as this recipe can express it: without template comments when they are off."""
+    if recipe["template_comments"]:
+        return tree
+    return _strip_tcomments(tree)
+
+
+def _strip_tcomments(nodes):
+    out = []
+    for n in nodes:
+        if n[0] == "tcomment":
+            continue
+        if n[0] == "block":
+            out.append(["block", n[1], n[2], _strip_tcomments(n[3]), [[c[0], c[1], _strip_tcomments(c[2])] for c in n[4]],
+                        n[5], n[6]])
+        elif n[0] in ("seq", "liquid"):
+            out.append([n[0], _strip_tcomments(n[1])])
+        else:
+            out.append(n)
+    return out
+
+
 def with_lc(delims, recipe):
     """Delimiter set plus the liquid tag's line-comment marker for this recipe."""
     lc = "#"
@@ -107,7 +129,7 @@ def with_lc(delims, recipe):
 
 def sources_for(spec, delims):
     d = with_lc(delims, spec["recipe"])
-    return {nm: G.render_source(t, d) for nm, t in spec["partials"].items()}
+    return {nm: G.render_source(tree_for(t, spec["recipe"]), d) for nm, t in spec["partials"].items()}
 
 
 def norm(o):
@@ -145,6 +167,13 @@ def evaluate_probe(probe):
     return [custom, canon]
 
 
+def _run_variation(probe_list):
+    """Probes of a history in the given (reversed) order, each in a freshly built environment."""
+    warnings.simplefilter("ignore")
+    CLOCK.set(clock.EPOCH_US)
+    return [evaluate_probe(p) for p in probe_list]
+
+
 def used_chars(trees):
     s = set()
     for t in trees:
@@ -161,30 +190,25 @@ def gen_delims(rng, used):
         for k in ("ts", "te", "os", "oe", "cs", "ce"):
             n = rng.weighted([(1, 2), (2, 6), (3, 2), (4, 1)])
             d[k] = "".join(rng.choice(alpha) for _ in range(n))
-        vals = list(d.values())
-        if len(set(vals)) < 6:
-            continue
-        ok = True
-        for c in vals:
-            for a in vals:
-                for b in vals + [""]:
-                    ab = a + b
-                    # c may not occur in a, nor straddle a|b, unless it is that very delimiter
-                    idx = ab.find(c)
-                    while idx != -1:
-                        if not ((idx == 0 and c == a) or (idx == len(a) and c == b and b)):
-                            ok = False
-                            break
-                        idx = ab.find(c, idx + 1)
-                    if not ok:
-                        break
-                if not ok:
-                    break
-            if not ok:
-                break
-        if ok:
+        if delims_ok(list(d.values())):
             return d
     return None
+
+
+def delims_ok(vals):
+    """No delimiter occurs inside another or across the concatenation of two others."""
+    if len(set(vals)) < len(vals):
+        return False
+    for c in vals:
+        for a in vals:
+            for b in vals + [""]:
+                ab = a + b
+                idx = ab.find(c)
+                while idx != -1:
+                    if not ((idx == 0 and c == a) or (idx == len(a) and c == b and b)):
+                        return False
+                    idx = ab.find(c, idx + 1)
+    return True
 
 
 class C11:
@@ -217,7 +241,7 @@ class C11:
         "no I/O, clock or scheduler is involved in this property: the explored dimension is order, liveness of many "
         "configurations and memo roll-over; no fault kind applies",
     ]
-    REQUIRED_REACH = ["reach.equal_hash_envs_alive", "reach.flood_rolled_parser_cache", "reach.parse_after_mutation",
+    REQUIRED_REACH = ["reach.order_variation_compared", "reach.pristine_compared", "reach.equal_hash_envs_alive", "reach.flood_rolled_parser_cache", "reach.parse_after_mutation",
                       "reach.interleaved_envs", "reach.implicit", "reach.custom_delims", "reach.dropped_env",
                       "reach.regex_meta_delims", "reach.letter_delims"]
 
@@ -255,6 +279,21 @@ class C11:
         for _ in range(rng.randint(1, 3)):
             d = gen_delims(rng, used) if rng.chance(0.85) else dict(G.DEFAULT_DELIMS)
             delim_sets.append(d or dict(G.DEFAULT_DELIMS))
+        # environments that agree on tag/output delimiters and differ ONLY in comment delimiters
+        # (one or both): the memo-key collision case for lexers
+        for d in list(delim_sets):
+            if rng.chance(0.45):
+                for _ in range(50):
+                    alt = gen_delims(rng, used)
+                    if alt is None:
+                        break
+                    which = rng.choice([("cs", "ce"), ("cs",), ("ce",)])
+                    cand = dict(d)
+                    for k in which:
+                        cand[k] = alt[k]
+                    if delims_ok(list(cand.values())):
+                        delim_sets.append(cand)
+                        break
         for i in range(rng.randint(2, 5)):
             recipe = dict(base)
             if rng.chance(0.5):
@@ -266,12 +305,14 @@ class C11:
                 recipe["strict_filters"] = not recipe["strict_filters"]
             if rng.chance(0.2):
                 recipe["extra"] = not recipe["extra"]
+            if rng.chance(0.25):
+                recipe["template_comments"] = not recipe["template_comments"]
             specs.append({"label": "E%d" % i, "recipe": recipe, "delims": rng.randrange(len(delim_sets)),
                           "custom": {"filter": rng.chance(0.5), "tag": rng.chance(0.4)}, "partials": partials})
         datas = [G.gen_data(rng) for _ in range(rng.randint(1, 2))]
         ops = []
         uid = 0
-        nops = rng.randint(4, 12)
+        nops = rng.randint(5, 20)
         for _ in range(nops):
             uid += 1
             k = rng.weighted([("new_env", 3), ("parse", 3), ("render", 8), ("mutate", 2), ("drop", 1), ("implicit", 1),
@@ -294,7 +335,39 @@ class C11:
 
     # -- execution ---------------------------------------------------------------
     def run(self, sc):
-        return fork.run_in_fork(self._run_here, sc)
+        # (A) the history in a fork of the (history-free) worker; (B) its probes again in a second
+        # fork, in REVERSED order, each in a freshly built environment together with its canonical
+        # default-delimiter rewriting; (C) a sample of the probes in the pristine fork, where no
+        # other environment ever existed.
+        res = fork.run_in_fork(self._run_here, sc)
+        probes = res.pop("probes")
+        st = res["stats"]
+        viol = res["violations"]
+        if viol or not probes:
+            return res
+
+        def add(oracle, sig, detail):
+            viol.append({"oracle": oracle, "sig": sig, "detail": detail})
+        var = fork.run_in_fork(_run_variation, [p["probe"] for p in reversed(probes)])
+        bump(st, "variation_forks")
+        for p, (custom, canon) in zip(reversed(probes), var):
+            bump(st, "reach.order_variation_compared")
+            self._judge(add, p["op"], p["got"], tuple(custom), tuple(canon), p["kind"], p["delims"], "order")
+            if viol:
+                return res
+        zy = fork.zygote()
+        f0 = zy.forks
+        rng = Rng(len(probes) * 7919 + sum(p["uid"] for p in probes), ("pristine-sample",))
+        chosen = [probes[-1]] + [p for p in probes[:-1] if rng.chance(0.15)]
+        for p in chosen[:3]:
+            res["states"].append(int(p["key"][:12], 16))
+            custom, canon = zy.ask(p["key"], p["probe"])
+            bump(st, "reach.pristine_compared")
+            self._judge(add, p["op"], p["got"], tuple(custom), tuple(canon), p["kind"], p["delims"], "pristine")
+            if viol:
+                break
+        bump(st, "reference_forks", zy.forks - f0)
+        return res
 
     def _run_here(self, sc):
         res = new_result()
@@ -302,7 +375,7 @@ class C11:
         viol = res["violations"]
         warnings.simplefilter("ignore")
         CLOCK.set(clock.EPOCH_US)
-        zy = fork.zygote()
+        res["probes"] = []
         live = {}            # spec index -> (env, mutations list)
         history = []
         last_spec = [None]
@@ -377,8 +450,9 @@ class C11:
             elif k == "implicit":
                 d = delims_of(i)
                 r = sc["specs"][i]["recipe"]
-                src = G.render_source(sc["trees"][op["tree"]], with_lc(d, r))
-                csrc = G.render_source(sc["trees"][op["tree"]], G.DEFAULT_DELIMS)
+                tr = tree_for(sc["trees"][op["tree"]], r)
+                src = G.render_source(tr, with_lc(d, r))
+                csrc = G.render_source(tr, G.DEFAULT_DELIMS)
                 kw = {"tag_start_string": d["ts"], "tag_end_string": d["te"], "statement_start_string": d["os"],
                       "statement_end_string": d["oe"], "extra": r["extra"], "tolerance": None,
                       "strict_filters": r["strict_filters"], "autoescape": r["autoescape"]}
@@ -395,31 +469,29 @@ class C11:
                 key = digest(("imp", src, pk, dspec))
                 probe = {"kind": "implicit", "source": src, "kwargs": kw, "canon_source": csrc, "canon_kwargs": ckw,
                          "data": dspec}
-                res["states"].append(int(key[:12], 16))
-                custom, canon = zy.ask(key, probe)
                 history.append([op["uid"], "implicit", got[0], got[1] if got[0] == "err" else digest(got[1])])
-                self._judge(add, op, got, tuple(custom), tuple(canon), "implicit", d)
+                res["probes"].append({"uid": op["uid"], "op": op, "kind": "implicit", "key": key, "probe": probe,
+                                      "got": got, "delims": d})
             else:
                 env = ensure(i)
                 note(i)
                 if live[i][1]:
                     bump(st, "reach.parse_after_mutation")
                 d = delims_of(i)
-                src = G.render_source(sc["trees"][op["tree"]], with_lc(d, sc["specs"][i]["recipe"]))
-                csrc = G.render_source(sc["trees"][op["tree"]], G.DEFAULT_DELIMS)
+                tr = tree_for(sc["trees"][op["tree"]], sc["specs"][i]["recipe"])
+                src = G.render_source(tr, with_lc(d, sc["specs"][i]["recipe"]))
+                csrc = G.render_source(tr, G.DEFAULT_DELIMS)
                 dspec = sc["datas"][op["data"]]
                 got = probe_outcome(env, src, dspec, k)
                 spec = cur_spec(i)
                 key = digest(("p", spec, d, src, dspec, k))
                 probe = {"kind": "probe", "spec": spec, "delims": d, "source": src, "canon_source": csrc,
                          "data": dspec, "what": k}
-                res["states"].append(int(key[:12], 16))
-                custom, canon = zy.ask(key, probe)
                 history.append([op["uid"], k, i, got[0], got[1] if got[0] == "err" else digest(got[1])])
-                self._judge(add, op, got, tuple(custom), tuple(canon), k, d)
+                res["probes"].append({"uid": op["uid"], "op": op, "kind": k, "key": key, "probe": probe, "got": got,
+                                      "delims": d})
             if viol:
                 break
-        bump(st, "reference_forks", zy.forks)
         res["steps"] = len(history)
         res["isig"] = digest([(h[0], h[1]) for h in history])
         res["digest"] = digest(history)
@@ -432,7 +504,7 @@ class C11:
         res["violations"] = out
         return res
 
-    def _judge(self, add, op, got, custom, canon, kind, d):
+    def _judge(self, add, op, got, custom, canon, kind, d, ref="pristine"):
         got, custom, canon = tuple(got), tuple(custom), tuple(canon)
 
         def cls(a, b):
@@ -441,7 +513,8 @@ class C11:
             return "%s->%s" % (b[1] if b[0] == "err" else "ok", a[1] if a[0] == "err" else "ok")
         if got != custom:
             add("independence", "independence:%s:%s" % (kind, cls(got, custom)),
-                {"op": op, "in_history": _brief(got), "pristine": _brief(custom), "delims": d})
+                {"op": op, "in_history": _brief(got), ref: _brief(custom), "delims": d,
+                 "reference": "fresh environment, reversed order" if ref == "order" else "pristine fork"})
             return
         if kind == "parse" and custom[0] == canon[0] == "ok":
             return   # serialised forms are compared within one configuration only
